@@ -1,3 +1,5 @@
+//go:build verif
+
 package c01
 
 import (
@@ -127,6 +129,9 @@ func judgeQuote(c *qctx, via string, d *qdatum, prefix string) (v qverdict) {
 		v.want = append(v.want, strings.ReplaceAll(c.want, "S", lisp.Show(w)))
 	}
 	v.got = runSlip(v.text, 100000)
+	if strings.Contains(c.prog, "NAME") {
+		slip.VerifForgetFunction(slip.CurrentPackage, prefix)
+	}
 	switch {
 	case v.got.runaway:
 		v.kind = "runaway"
